@@ -412,7 +412,7 @@ func (w *genWorld) roundTripWith(contBlocks int, directed bool) (res roundTripRe
 	// byte-level: committed state of the original vs the state right after InitChain of the copy
 	ctx1 := committedCtx(c)
 	for _, m := range c18Modules {
-		d := DiffDumps(StoreDumpCtx(c, ctx1, m), post.dumps[m], 400)
+		d := DiffDumps(canonDump(m, StoreDumpCtx(c, ctx1, m)), canonDump(m, post.dumps[m]), 400)
 		if len(d) > 0 {
 			res.storeDiff[m] = d
 		}
@@ -462,4 +462,20 @@ func fmtUpdates(us []abci.ValidatorUpdate) string {
 	}
 	sort.Strings(out)
 	return strings.Join(out, ",")
+}
+
+// canonDump drops entries that read the same as an absent key: a zero undelegation hold count (x/delegation prefix 6;
+// DecrementUndelegationHoldCount leaves the key with value 0, GetUndelegationHoldCount reads a missing key as 0).
+func canonDump(module string, dump []string) []string {
+	if module != "delegation" {
+		return dump
+	}
+	out := dump[:0:0]
+	for _, l := range dump {
+		if strings.HasPrefix(l, "06") && strings.HasSuffix(l, "=0000000000000000") {
+			continue
+		}
+		out = append(out, l)
+	}
+	return out
 }
